@@ -2,4 +2,10 @@
 #![allow(dead_code, unused_imports, static_mut_refs)]
 
 #[cfg(kani)]
+#[path = "../../common/uf.rs"]
+pub mod uf;
+
+#[cfg(kani)]
 mod c09_simd;
+#[cfg(kani)]
+mod c07_validation;
